@@ -441,7 +441,15 @@ def _set_allocations_for_consumer(req, schema):
     else:
         # If the body includes an allocation for a resource provider
         # that does not exist, raise a 400.
-        rp_objs = _resource_providers_by_uuid(context, allocation_data.keys())
+        try:
+            rp_objs = _resource_providers_by_uuid(
+                context, allocation_data.keys())
+        except Exception:
+            with excutils.save_and_reraise_exception():
+                # Do not leave an auto-created consumer behind when the
+                # request is rejected.
+                if created_new_consumer:
+                    delete_consumers([consumer])
 
         for resource_provider_uuid, allocation in allocation_data.items():
             resource_provider = rp_objs[resource_provider_uuid]
@@ -559,7 +567,13 @@ def set_allocations(req):
     # alloc_obj.replace_all() call, which will mean all the changes happen
     # within a single transaction and with resource provider and consumer
     # generations (if applicable) check all in one go.
-    allocations = create_allocation_list(context, data, consumers)
+    try:
+        allocations = create_allocation_list(context, data, consumers)
+    except Exception:
+        with excutils.save_and_reraise_exception():
+            # Do not leave auto-created consumers behind when the request
+            # is rejected.
+            delete_consumers(new_consumers_created)
 
     @db_api.placement_context_manager.writer
     def _update_consumers_and_create_allocations(ctx):
